@@ -9,6 +9,16 @@
    random order, structured full-size, dense layouts) -> real geometry_from_meta / read_geometry / Reader.geometry /
    trace_header / split_trace_header -> spec/trace/GeometryTrace.tla (property layer on observed values).
 4. binding self-tests: corrupted observations must be flagged; a perturbed exported expectation must be noticed.
+
+Dimensions of the input / history space the tables are drawn from (audit): draw flags 0/1 per entry (reference sites), the map
+headers SpikeGLX really writes, both probe-type codes of NP2.1 / NP2.4, ap and lf streams, recordings without sync channel,
+site counts anywhere in 1..384 (around every ADC block boundary), shanks absent from the table as split target, the split key
+as int in memory, metadata without a site table (canonical layout through every API, flat binary without metadata), every
+documented spelling of version / nshank, the public building blocks rc2xy / xy2rc / adc_shifts called directly with other
+dtypes and scalars.  Histories: everything a call returns is overwritten by the "caller" before the next call on the same
+metadata / arguments (a result is the caller's own copy), the same metadata object serves all calls, a table is read again
+after the others, readers of both sort orders are alive together, a parent header is looked at again after its children were
+split off and written into.
 """
 import copy
 import itertools
@@ -74,59 +84,191 @@ def parse_entries(text):
     return out
 
 
+# the map headers SpikeGLX writes (metagen writes one fixed header for every probe); the parser must not care
+REAL_HEADER = {("NP1", "shank"): "1,2,480", ("NP1", "geom"): "PRB_1_4_0480_1_C,1,0,70", ("NPU", "shank"): "1,8,48",
+               ("NP2.1", "shank"): "1,2,640", ("NP2.1", "geom"): "NP2000,1,0,70",
+               ("NP2.4", "shank"): "4,2,640", ("NP2.4", "geom"): "NP2014,4,250,70"}
+ALT_TYPE = {"NP2.1": 1030, "NP2.4": 2013}
+# spellings of the `version` argument of neuropixel.trace_header / rc2xy / xy2rc / adc_shifts (docstrings: 1, 2, 2.4, "NPultra")
+VSPELL = {"1": 1, "1.0": 1.0, "i64(1)": np.int64(1), "2": 2, "2.0": 2.0, "2.4": 2.4, "f64(2.4)": np.float64(2.4),
+          "f64(2)": np.float64(2.0), "NPultra": "NPultra"}
+VERSIONS = {"NP1": ["1", "1.0", "i64(1)"], "NP2": ["2", "2.4", "2.0", "f64(2.4)", "f64(2)"], "NPU": ["NPultra"]}
+OPTS = ("hdr", "ptype", "stream", "nsync", "tilde", "memsplit", "again", "blk", "nomap", "versions", "flatbin")
+
+
+def dress(text, enc, flags, header):
+    """rewrites the site-table line of a metagen text: draw flags per entry, another header"""
+    key = "snsShankMap" if enc == "shank" else "snsGeomMap"
+    lines = text.split("\n")
+    hit = 0
+    for i, line in enumerate(lines):
+        m = re.match(rf"^(~?{key}=)\(([^)]*)\)(.*)$", line)
+        if m:
+            ents = re.findall(r"\(([0-9:]+)\)", m.group(3))
+            if flags is not None:
+                if len(ents) != len(flags):
+                    raise tlc.TLCError("dress: metagen wrote another number of entries than sites")
+                ents = [e.rsplit(":", 1)[0] + f":{int(f)}" for e, f in zip(ents, flags)]
+            lines[i] = f"{m.group(1)}({header or m.group(2)})" + "".join(f"({e})" for e in ents)
+            hit += 1
+    if hit != 1:
+        raise tlc.TLCError(f"dress: {hit} site-table lines in the metadata text")
+    return "\n".join(lines)
+
+
+def scribble(*things):
+    """what a caller may do with what it was given: overwrite it.  Nothing a later call returns may depend on it."""
+    for th in things:
+        for v in (th.values() if isinstance(th, dict) else [th]):
+            if isinstance(v, np.ndarray) and v.flags.writeable and v.size:
+                v[...] = -3
+
+
 # ------------------------------------------------------------------------------------------------
 # recording: one site table -> one trace
 def record(job):
-    """job = dict(kind, sites, apis (subset of gfm/rg/reader), splits (list of shanks), dense (nshank or 0), dir)"""
+    """job = dict(kind, sites, apis (subset of gfm/rg/reader), splits (list of shanks), dense (nshank or 0), dir) + OPTS.
+    A site is (shank, row, col) or (shank, row, col, draw flag)."""
     import neuropixel
     import spikeglx
     logging.disable(logging.CRITICAL)
-    kind, sites = job["kind"], [tuple(s) for s in job["sites"]]
+    kind, sites = job["kind"], [tuple(int(v) for v in s) for s in job["sites"]]
+    sites3 = [s[:3] for s in sites]
+    flags = [s[3] for s in sites] if all(len(s) == 4 for s in sites) else None
     gen = GEN[kind]
+    n = len(sites)
     d = Path(job["dir"])
     d.mkdir(parents=True, exist_ok=True)
     rec = {"gen": gen, "kind": kind, "sites": [list(s) for s in sites], "entries": {}, "obs": [], "dense": job.get("dense", 0),
-           "exc": ""}
+           "exc": "", "opts": json.dumps({k: job[k] for k in OPTS if k in job})}
     encs = ["shank"] if gen == "NPU" else ["shank", "geom"]
-    f = d / f"g{job['id']}.ap.meta"
+    stream = job.get("stream", "ap")
+    f = d / f"g{job['id']}.{stream}.meta"
+    junk = [f]
+    mk = dict(ns=10, stream=stream, nsync=job.get("nsync", 1), tilde=job.get("tilde", True))
+    more = {"imDatPrb_type": job["ptype"]} if job.get("ptype") else {}     # a later line of the file wins
+
+    def add(api, enc, sort, split, hdr, idx):
+        rec["obs"].append({"api": api, "enc": enc, "sort": sort, "split": split, "hdr": hdr, "idx": idx})
+
+    def again(api, enc, sort, split, hdr, first):
+        """a second look at something already observed: another observation (judged like the first) if it differs"""
+        if hdr != first:
+            add(api, enc, sort, split, hdr, [r[7] for r in hdr] if sort else list(range(len(hdr))))
+
     try:
         for enc in encs:
+            hkey = (kind if gen == "NP2" else gen, enc)
             for split in [-1] + list(job.get("splits", [])):
-                extra = {"NP2.4_shank": split} if split >= 0 else None
-                text, _ = metagen.make_meta(kind, sites, encoding=enc, ns=10, extra=extra)
+                extra = dict(more, **({"NP2.4_shank": split} if split >= 0 else {}))
+                text, _ = metagen.make_meta(kind, sites3, encoding=enc, extra=extra or None, **mk)
+                text = dress(text, enc, flags, REAL_HEADER[hkey] if job.get("hdr") else None)
                 if split == -1:
                     rec["entries"].update(parse_entries(text))
                 f.write_text(text)
                 md = spikeglx.read_meta_data(f)
-                for sort in (False, True):
-                    if "gfm" in job["apis"]:
+                if split >= 0 and job.get("memsplit"):
+                    md["NP2.4_shank"] = int(split)         # set by a program (as NP2Converter does), not parsed from a file
+                first = {}
+                if "gfm" in job["apis"]:
+                    for sort in (False, True):
                         th, idx = spikeglx.geometry_from_meta(md, return_index=True, sort=sort)
+                        hdr, ix, keys = project(th, gen), _ints(idx), set(th or ())
+                        scribble(th, idx)
                         th2 = spikeglx.geometry_from_meta(md, sort=sort)   # the other return form must be the same table
-                        same = th is not None and th2 is not None and th.keys() == th2.keys() and all(
-                            np.array_equal(th[k], th2[k]) for k in th)
-                        rec["obs"].append({"api": "gfm", "enc": enc, "sort": sort, "split": split,
-                                           "hdr": project(th if same else None, gen), "idx": _ints(idx)})
-                    if "reader" in job["apis"]:
-                        sr = spikeglx.Reader(f, sort=sort)
-                        n = 0 if sr.geometry is None else np.asarray(sr.geometry["ind"]).size
-                        rec["obs"].append({"api": "reader", "enc": enc, "sort": sort, "split": split,
-                                           "hdr": project(sr.geometry, gen), "idx": _ints(sr.raw_channel_order[:n])})
+                        same = th is not None and th2 is not None and keys == set(th2) and hdr == project(th2, gen)
+                        scribble(th2)
+                        first[sort] = hdr if same else []
+                        add("gfm", enc, sort, split, first[sort], ix)
+                    if job.get("again"):                   # the same metadata object, after everything above
+                        th3, idx3 = spikeglx.geometry_from_meta(md, True, 384, False)
+                        again("gfm", enc, False, split, project(th3, gen) if _ints(idx3) == list(range(len(first[False]))) else [],
+                              first[False])
+                if "reader" in job["apis"]:
+                    srs = [(sort, spikeglx.Reader(f, sort=sort)) for sort in (False, True)]    # both alive at once
+                    for sort, sr in srs:
+                        m = 0 if sr.geometry is None else np.asarray(sr.geometry["ind"]).size
+                        add("reader", enc, sort, split, project(sr.geometry, gen), _ints(sr.raw_channel_order[:m]))
+                        scribble(sr.geometry, sr.raw_channel_order)
                 if "rg" in job["apis"]:
-                    th = spikeglx.read_geometry(f)
-                    rec["obs"].append({"api": "rg", "enc": enc, "sort": True, "split": split,
-                                       "hdr": project(th, gen), "idx": [r[7] for r in project(th, gen)]})
+                    th = spikeglx.read_geometry(str(f) if n % 2 else f)
+                    add("rg", enc, True, split, project(th, gen), [r[7] for r in project(th, gen)])
+                    scribble(th)
+        b = job.get("blk")
+        if b:       # the public building blocks, called by a user on his own arrays
+            ver = VSPELL[b["version"]]
+            if b["dtype"] == "scalar":
+                xy = [neuropixel.rc2xy(s[1], s[2], version=ver) for s in sites]
+                rc = [neuropixel.xy2rc(q["x"], q["y"], version=ver) for q in xy]
+                xy = {k: np.array([q[k] for q in xy]) for k in ("x", "y")}
+                rc = {k: np.array([q[k] for q in rc]) for k in ("row", "col")}
+            else:
+                row, col = (np.array([s[j] for s in sites], dtype=b["dtype"]) for j in (1, 2))
+                for _ in range(2):          # the caller's arrays are reused; what the first call returned is written into
+                    xy = neuropixel.rc2xy(row, col, version=ver)
+                    x, y = xy["x"], xy["y"]
+                    rc = neuropixel.xy2rc(x, y, version=ver)
+                    if _ == 0:
+                        scribble(dict(xy), dict(rc))
+                xy = {"x": x, "y": y}       # xy2rc must have left them alone
+            for _ in range(2):
+                ss, adc = neuropixel.adc_shifts(version=ver, nc=n)
+                if _ == 0:
+                    scribble(ss, adc)
+            th = {"shank": np.array([s[0] for s in sites]), "row": rc["row"], "col": rc["col"], "x": xy["x"], "y": xy["y"],
+                  "adc": adc, "sample_shift": ss, "ind": np.arange(n), "flag": np.array(flags or [1] * n)}
+            add("blk", "shank", False, -1, project(th, gen), [])
         if rec["dense"]:
-            version = {"NP1": 1, "NP2": 2 if rec["dense"] == 1 else 2.4, "NPU": "NPultra"}[gen]
-            h = neuropixel.trace_header(version=version, nshank=rec["dense"])
-            rec["obs"].append({"api": "th", "enc": "shank", "sort": False, "split": -1, "hdr": project(h, gen, False), "idx": []})
-            for s in range(rec["dense"]):
-                hs = neuropixel.split_trace_header(h, shank=s)
-                rec["obs"].append({"api": "sth", "enc": "shank", "sort": False, "split": s, "hdr": project(hs, gen, False),
-                                   "idx": []})
+            version = {"NP1": "1", "NP2": "2" if rec["dense"] == 1 else "2.4", "NPU": "NPultra"}[gen]
+            for j, (vs, nsh) in enumerate([(version, rec["dense"])] + [tuple(v) for v in job.get("versions", [])]):
+                h = neuropixel.trace_header(version=VSPELL[vs], nshank=nsh)
+                if j == 0:
+                    first_th = project(h, gen, False)
+                    add("th", "shank", False, -1, first_th, [])
+                else:                   # another spelling of the same layout
+                    again("dflt", "shank", False, -1, project(h, gen, False), first_th)
+                for s in range(rec["dense"] + (1 if rec["dense"] < 4 else 0)):      # the last one of a 1-shank layout is empty
+                    hs = neuropixel.split_trace_header(h, shank=s)
+                    if j == 0:
+                        add("sth", "shank", False, s, project(hs, gen, False), [])
+                    else:
+                        again("sth", "shank", False, s, project(hs, gen, False),
+                              next(o["hdr"] for o in rec["obs"] if o["api"] == "sth" and o["split"] == s))
+                    scribble(hs)
+                again("dflt", "shank", False, -1, project(h, gen, False), first_th)    # the parent after its children
+                scribble(h)
+                again("dflt", "shank", False, -1, project(neuropixel.trace_header(version=VSPELL[vs], nshank=nsh), gen, False),
+                      first_th)
+            if job.get("nomap"):        # metadata without a site table: the canonical layout of the probe
+                text, _ = metagen.make_meta(kind, sites3, encoding="none", extra=more or None, **mk)
+                f.write_text(text)
+                md = spikeglx.read_meta_data(f)
+                th, idx = spikeglx.geometry_from_meta(md, return_index=True)
+                add("dflt", "shank", False, -1, project(th, gen), [])
+                base = rec["obs"][-1]["hdr"]
+                scribble(th, idx)
+                for sort in (False, True):
+                    th = spikeglx.geometry_from_meta(md, sort=sort)
+                    again("dflt", "shank", False, -1, project(th, gen), base)
+                    scribble(th)
+                sr = spikeglx.Reader(f)
+                again("dflt", "shank", False, -1, project(sr.geometry, gen), base)
+                scribble(sr.geometry)
+                again("dflt", "shank", False, -1, project(spikeglx.read_geometry(f), gen), base)
+            if job.get("flatbin"):      # a flat binary without metadata is taken for a dense NP1 recording
+                fb = d / f"flat{job['id']}" / "raw.bin"
+                fb.parent.mkdir(parents=True, exist_ok=True)
+                junk.append(fb)
+                np.zeros(384 * 3, dtype=np.int16).tofile(fb)
+                sr = spikeglx.Reader(fb, open=False)
+                add("dflt", "shank", False, -1, project(sr.geometry, gen, False), [])
+    except tlc.TLCError:
+        raise
     except Exception as e:   # the functions are total on the quantifier's domain
         rec["exc"] = f"{type(e).__name__}: {e}"
     finally:
-        f.unlink(missing_ok=True)
+        for x in junk:
+            x.unlink(missing_ok=True)
     return rec
 
 
@@ -177,9 +319,37 @@ def small_jobs(ctx, rnd):
         grid = small_grid(gen, rnd.choice([2, 3, 6, 12]), 1 if kind == "NP2.1" else 4)
         k = rnd.randint(1, min(len(grid), 12))
         t = rnd.sample(grid, k)
-        jobs.append({"kind": kind, "sites": t, "apis": ["gfm", "reader", "rg"] if rnd.random() < 0.3 else ["gfm"],
-                     "splits": sorted({s[0] for s in t}) if kind == "NP2.4" else []})
+        job = {"kind": kind, "sites": t, "apis": ["gfm", "reader", "rg"] if rnd.random() < 0.3 else ["gfm"],
+               "splits": sorted({s[0] for s in t}) if kind == "NP2.4" else []}
+        jobs.append(dressed(job, rnd))
     return jobs
+
+
+def dressed(job, rnd, flag0=0.3, blk=0.2):
+    """draws the metadata variants, the history and the direct calls of one table"""
+    kind, t = job["kind"], job["sites"]
+    gen = GEN[kind]
+    if rnd.random() < 0.5:             # reference / disabled sites are written with draw flag 0
+        job["sites"] = [(s[0], s[1], s[2], int(rnd.random() >= flag0)) for s in t]
+    job["hdr"] = rnd.random() < 0.5
+    if kind in ALT_TYPE and rnd.random() < 0.3:
+        job["ptype"] = ALT_TYPE[kind]
+    if metagen.KINDS[kind][4] and rnd.random() < 0.15:
+        job["stream"] = "lf"
+    if rnd.random() < 0.1:
+        job["nsync"] = 0
+    if rnd.random() < 0.1:
+        job["tilde"] = False
+    if kind == "NP2.4":
+        absent = sorted(set(range(4)) - {s[0] for s in t})
+        if absent and rnd.random() < 0.25:      # a shank the table has no site on: the restriction is empty
+            job["splits"] = job["splits"] + [rnd.choice(absent)]
+        job["memsplit"] = rnd.random() < 0.3
+    job["again"] = rnd.random() < 0.3
+    if rnd.random() < blk:
+        job["blk"] = {"version": rnd.choice(VERSIONS[gen]),
+                      "dtype": rnd.choice(["int64", "int32", "float32", "float64"] + (["scalar"] if len(t) <= 4 else []))}
+    return job
 
 
 def full_jobs(ctx, rnd):
@@ -213,12 +383,30 @@ def full_jobs(ctx, rnd):
             t = t[:k]
         # the heavy observations are kept small: one split shank per table
         shanks = sorted({s[0] for s in t})
-        jobs.append({"kind": kind, "sites": t, "apis": ["gfm"] if i % 3 else ["gfm", "reader"],
-                     "splits": [rnd.choice(shanks)] if kind == "NP2.4" else []})
+        job = {"kind": kind, "sites": t, "apis": ["gfm"] if i % 3 else ["gfm", "reader"],
+               "splits": [rnd.choice(shanks)] if kind == "NP2.4" else []}
+        jobs.append(dressed(job, rnd, flag0=0.02, blk=0.25))
+    # any number of sites: around every ADC block boundary (24 / 32 channels), a shank's share, anything else
+    for i in range(10 if ctx.quick else 150):
+        kind = ["NP2.4", "3B2", "NP2.1", "3A", "NP2.4", "NPultra", "3B1"][i % 7]
+        gen = GEN[kind]
+        blkn = 32 if gen == "NP2" else 24
+        k = [rnd.randrange(1, 13) * blkn + rnd.choice([-1, 0, 1]), rnd.choice([96, 192, 288, 13, 47, 49]),
+             rnd.randint(13, 383)][i % 3]
+        k = min(k, 383)
+        t = rnd.sample(all_sites(gen, 1 if kind == "NP2.1" else None), k)
+        if i % 2:       # banks: contiguous rows, shanks interleaved by blocks
+            t = sorted(t, key=lambda s: (s[1] // 8, s[0], s[1], s[2]))
+        job = {"kind": kind, "sites": t, "apis": ["gfm"], "splits": [rnd.choice(sorted({s[0] for s in t}))] if kind == "NP2.4" else []}
+        jobs.append(dressed(job, rnd, flag0=0.02, blk=0.25))
     # the canonical dense layouts, through the metadata and through trace_header
     for kind, nsh in (("3B2", 1), ("3A", 1), ("NP2.1", 1), ("NP2.4", 1), ("NP2.4", 4), ("NPultra", 1)):
+        alts = [v for v in VERSIONS[GEN[kind]] if v != {"NP1": "1", "NP2": "2" if nsh == 1 else "2.4", "NPU": "NPultra"}[GEN[kind]]]
         jobs.append({"kind": kind, "sites": metagen.dense_sites(kind, 384, nsh), "apis": ["gfm", "reader", "rg"],
-                     "splits": list(range(nsh)) if nsh > 1 else [], "dense": nsh})
+                     "splits": list(range(nsh)) if nsh > 1 else [], "dense": nsh, "again": True, "hdr": nsh == 1,
+                     # every documented spelling of version x nshank (quick: the other main one and a drawn one)
+                     "versions": [[v, nsh] for v in (alts[:1] + ([rnd.choice(alts[1:])] if alts[1:] else []) if ctx.quick else alts)],
+                     "nomap": nsh == 1, "flatbin": kind == "3B2"})
     return jobs
 
 
@@ -228,7 +416,7 @@ def judge(ctx, trs, label, jvms=4):
     for t in trs:
         if t["exc"]:
             ctx.violation("geom:raised", f"{t['kind']} table of {len(t['sites'])} sites {t['sites'][:6]}..: the code raised {t['exc']}",
-                          {"kind": t["kind"], "sites": t["sites"]})
+                          {"kind": t["kind"], "sites": t["sites"], "dense": t["dense"], "opts": json.loads(t["opts"])})
     ok = [t for t in trs if not t["exc"]]
     verdicts = tracecheck.validate(ctx, *TRACE, ok, label=label, jvms=jvms, workers=1, nstates=nstates, timeout=1800)
     bad = set()
@@ -243,7 +431,8 @@ def judge(ctx, trs, label, jvms=4):
             ctx.violation("geom:" + clause,
                           f"{t['kind']} table of {len(t['sites'])} sites {t['sites'][:5]}{'..' if len(t['sites']) > 5 else ''}: clause "
                           f"{clause} false on {o['api']}(enc={o['enc']}, sort={o['sort']}, split={o['split']})",
-                          {"kind": t["kind"], "sites": t["sites"], "dense": t["dense"], "obs": {k2: o[k2] for k2 in ("api", "enc", "sort", "split")}})
+                          {"kind": t["kind"], "sites": t["sites"], "dense": t["dense"], "opts": json.loads(t["opts"]),
+                           "obs": {k2: o[k2] for k2 in ("api", "enc", "sort", "split")}})
         elif v["impl"]:
             clause, _, k = v["impl"].partition("@")
             o = t["obs"][int(k) - 1]
@@ -287,8 +476,11 @@ def run(ctx):
     selftest(ctx, [t for i, t in enumerate(ok) if i not in bad], [t for i, t in enumerate(fok) if i not in fbad])
     ctx.cov["rule"] = ("model: every ordered selection of <= MaxSel distinct sites of the small grid x encodings x sort x split; "
                        "traces: one site table each (exhaustive small box generated in python, seeded random tables up to 12 sites "
-                       "of every probe kind, random and structured 384-of-grid tables, the dense layouts) with every API's "
-                       "return value; non-trivial = more than one site")
+                       "of every probe kind, random and structured 384-of-grid tables, tables of any size up to 383, the dense "
+                       "layouts) with every API's return value; drawn per table: draw flags, map header, probe-type code, stream, "
+                       "sync channel, absent split shank, split key as int, re-reads after the caller overwrote what it was given, "
+                       "direct calls of rc2xy / xy2rc / adc_shifts with other dtypes; dense layouts also through metadata without "
+                       "a site table, a flat binary and every spelling of version / nshank; non-trivial = more than one site")
     ctx.cov["exhaustive"] = True
     ctx.cov["exported_cases_replayed"] = len(exported)
     ctx.assumptions += [
@@ -297,6 +489,10 @@ def run(ctx):
         "`ind` of a split *file* numbers the columns of that file (restriction is demanded of every other attribute); "
         "split_trace_header is a plain restriction",
         "metagen writes the encodings; the trace spec re-derives them from the site table and rejects a disagreement as machinery failure",
+        "the draw flag of an entry is data that travels with its site (judged by JointPerm / EncAgree / SplitRestriction); the "
+        "property names no attribute that depends on it",
+        "metadata without a site table is judged as a canonical dense layout (the code does not sort it; the property's sorting "
+        "clause is stated for site tables in one of the two encodings)",
         "NPultra: shank-map encoding only (no geometry-map fixture exists; the quantifier names NP1/NP2 grids for both encodings)"]
 
 
@@ -343,7 +539,7 @@ def model_mutants(ctx):
     """vacuity control: each seeded mutant of the model's sort step must violate an invariant"""
     base = (tlc.SPEC / "mc/Geometry_quick.cfg").read_text()
     caught = {}
-    for m in ("asc_col", "adc_after_sort", "ind_unsorted"):
+    for m in ("asc_col", "adc_after_sort", "ind_unsorted", "flag_unsorted"):
         cfg = ctx.scratch / f"Geometry_mut_{m}.cfg"
         cfg.write_text(base.replace('Mutant = ""', f'Mutant = "{m}"').replace("MaxSel = 4", "MaxSel = 3")
                        .replace("POSTCONDITION Export\n", "")
@@ -398,19 +594,44 @@ def selftest(ctx, small, full):
             for r in o["hdr"]:
                 r[4] -= 20
         mut.append(t)
+    # the draw flag travels with its site: a sorted table whose flags stayed in on-disk order
+    nflag = 0
+    for t0 in small:
+        o0 = next((o for o in t0["obs"] if o["api"] == "gfm" and o["sort"] and o["split"] == -1 and o["idx"] != sorted(o["idx"])), None)
+        if o0 is None or len({r[8] for r in o0["hdr"]}) < 2:
+            continue
+        t = copy.deepcopy(t0)
+        o = next(o for o in t["obs"] if o["api"] == "gfm" and o["sort"] and o["split"] == -1 and o["enc"] == o0["enc"])
+        u = next(p for p in t["obs"] if p["api"] == "gfm" and p["enc"] == o["enc"] and not p["sort"] and p["split"] == -1)
+        if [r[8] for r in u["hdr"]] == [r[8] for r in o["hdr"]]:
+            continue
+        for i, r in enumerate(o["hdr"]):
+            r[8] = u["hdr"][i][8]
+        mut.append(t)
+        nflag += 1
+        if nflag == 3:
+            break
+    if nflag == 0 and not (ctx.violations or ctx.known_hits):
+        raise tlc.TLCError("selftest: no accepted trace with mixed draw flags and a non-identity sort")
     keep = ctx.cov["traces_validated_against_impl"]
     v = tracecheck.validate(ctx, *TRACE, mut, label="geo_selftest", jvms=2, workers=1, nstates=nstates)
     ctx.cov["traces_validated_against_impl"] = keep
     flagged = {x["index"] for x in v if x["prop"]}
     if len(flagged) != len(mut):
         miss = sorted(set(range(len(mut))) - flagged)
-        raise tlc.TLCError(f"binding self-test: corrupted traces {miss} (kinds {[m % 7 for m in miss]}) were not rejected")
+        raise tlc.TLCError(f"binding self-test: corrupted traces {miss} (kinds {[m % 7 if m < len(cands) + 4 else 'flag' for m in miss]}) "
+                           f"were not rejected")
     ctx.cov["selftest_corrupted_traces_rejected"] = len(flagged)
 
 
 def replay(ctx, sc):
     sites = [tuple(s) for s in sc["sites"]]
     kind = sc["kind"]
-    t = record({"kind": kind, "sites": sites, "apis": ["gfm", "reader", "rg"], "dense": sc.get("dense", 0),
-                "splits": sorted({s[0] for s in sites}) if kind == "NP2.4" else [], "id": "replay", "dir": str(ctx.scratch / "geo")})
+    job = {"kind": kind, "sites": sites, "apis": ["gfm", "reader", "rg"], "dense": sc.get("dense", 0),
+           "splits": sorted({s[0] for s in sites}) if kind == "NP2.4" else [], "id": "replay", "dir": str(ctx.scratch / "geo")}
+    job.update(sc.get("opts", {}))
+    split = sc.get("obs", {}).get("split", -1)
+    if kind == "NP2.4" and split >= 0 and split not in job["splits"]:
+        job["splits"].append(split)
+    t = record(job)
     judge(ctx, [t], "geo_replay", jvms=1)
